@@ -29,7 +29,7 @@ PLAN = {
              title="transition execution order"),
  "C03": dict(machines=["hier3", "histN", "histS", "pseudo", "compl", "ortho"], profile=RESTART, mc=MC_RESTART, invariants=["P_C03"],
              title="active configuration integrity"),
- "C04": dict(configs=ALL + ["back_circ"], machines=["hier2", "compl", "defer", "flat", "deferq"], profile=[QUEUE, ENQDRAIN], mc=MC_QUEUE, invariants=["P_C04"],
+ "C04": dict(configs=ALL + ["back_circ"], machines=["hier2", "compl", "defer", "flat", "deferq"], profile=[QUEUE, ENQDRAIN, dict(QUEUE, throws=0.35, subs=0.35)], mc=MC_QUEUE, invariants=["P_C04"],
              title="run to completion / FIFO / exactly once"),
  "C05": dict(machines=["defer", "defer2", "deferq", "defer3", "defer4"], profile=DEFER, mc=dict(MC_QUEUE, maxcalls=4, budget=0, dirops=(), direvs=()), invariants=["P_C05"],
              title="deferred events"),
